@@ -168,6 +168,27 @@ static void blk_crls(void) {
 		verify_matrix("crl", crl, cl, &CK[1], sid); alg_relabel("crl", crl, cl, &CK[1], sid); if (mask == 5 || mask == 0) bitflips("crl", crl, cl, &CK[1], sid, 1);
 		vh_sample("{\"block\":\"crls\",\"listed_mask\":%d,\"signer_id\":%d,\"crllen\":%zu}", mask, sid, cl); }
 }
+/* revoked entries WITH and WITHOUT entry extensions in one list, every with/without pattern over four entries and both listing orders: each lookup must
+   report exactly the entry that was supplied (date, reason code, invalidity date, or no extensions at all) -- never a neighbour's */
+static void blk_crl_entry_exts(void) {
+	if (!vh_block_begin("crl-entry-extensions")) return;
+	static const struct { uint8_t b[4]; size_t n; } SER[] = { { { 0x11 }, 1 }, { { 0x11, 0x02 }, 2 }, { { 0x7f, 0x02, 0x03 }, 3 }, { { 0x22 }, 1 } }; static const int RS[4] = { 1, 3, 5, 9 };
+	for (int em = 0; em < 16; em++) for (int order = 0; order < 2; order++) for (int nent = 1; nent <= 4; nent += 3) { if (!vh_next()) continue; uint8_t rev[1024]; uint8_t *rp = rev; size_t rvl = 0; time_t rd = VENV_NOW - 7000; if (nent == 1 && (em > 1 || order)) continue;
+		for (int j = 0; j < nent; j++) { int i = order ? nent - 1 - j : j; int withx = (em >> i) & 1; int r = withx ? x509_revoked_cert_to_der_ex(SER[i].b, SER[i].n, rd + i, RS[i], rd - 1000 * (i + 1), NULL, 0, &rp, &rvl) : x509_revoked_cert_to_der(SER[i].b, SER[i].n, rd + i, NULL, 0, &rp, &rvl); if (r != 1) vh_harness_error("revoked entry"); }
+		static uint8_t crl[4096]; uint8_t *p = crl; size_t cl = 0; venv_reset(900 + em * 2 + order); uint8_t exts[128]; size_t el = 0; x509_crl_exts_add_crl_number(exts, &el, sizeof exts, X509_non_critical, em + 1);
+		int r = x509_crl_sign_to_der(X509_version_v2, OID_sm2sign_with_sm3, NAME_I, NIL, VENV_NOW - 100, VENV_NOW + 86400, rev, rvl, exts, el, &CK[1], IDS[0].p, IDS[0].n, &p, &cl); vh_eval(vh_mix(em * 8 + order * 4 + nent + 7001));
+		if (r != 1) { vh_viol("C15:crl-entry-extensions:issue-refused", "\"ext_mask\":%d,\"order\":%d,\"ret\":%d", em, order, r); continue; }
+		if (x509_signed_verify(crl, cl, &CK[1], IDS[0].p, IDS[0].n) != 1) vh_viol("C15:crl-entry-extensions:verify-own", "\"ext_mask\":%d", em);
+		for (int q = 0; q < nent; q++) { time_t d = 0; const uint8_t *ee = (const uint8_t *)"stale"; size_t eel = 5; r = x509_crl_find_revoked_cert_by_serial_number(crl, cl, SER[q].b, SER[q].n, &d, &ee, &eel); int withx = (em >> q) & 1; vh_eval(vh_mix(em * 64 + order * 32 + nent * 4 + q + 7201)); char key[160];
+			if (r != 1 || d != rd + q) { vh_viol("C15:crl-entry-extensions:lookup", "\"ext_mask\":%d,\"order\":%d,\"entry\":%d,\"ret\":%d", em, order, q, r); continue; }
+			if (!withx) { if (ee != NULL || eel != 0) { snprintf(key, sizeof key, "C15:crl-entry-extensions:entry-without-extensions-reported-with-%s", eel == 5 && ee && !memcmp(ee, "stale", 5) ? "the-callers-previous-values" : "extensions"); vh_viol(key, "\"ext_mask\":%d,\"order\":%d,\"entry\":%d,\"reported\":\"%s\"", em, order, q, vh_hex(ee, eel > 60 ? 60 : eel)); } continue; }
+			int reason = -2; time_t inv = -2; const uint8_t *ci; size_t cil; if (!ee || !eel || x509_crl_entry_exts_get(ee, eel, &reason, &inv, &ci, &cil) != 1 || reason != RS[q] || inv != rd - 1000 * (q + 1) || ci || cil) vh_viol("C15:crl-entry-extensions:entry-extensions-differ-from-the-supplied-ones", "\"ext_mask\":%d,\"order\":%d,\"entry\":%d,\"reason\":%d,\"want_reason\":%d", em, order, q, reason, RS[q]); }
+		/* the walk over the list (x509_revoked_cert_from_der with the same output variables for every entry, as the library's own loops do) */
+		{ const uint8_t *rv, *iss, *ex, *sg; size_t rl2, il, exl, sgl; int ver, a1, a2; time_t tu, nu; if (x509_crl_get_details(crl, cl, &ver, &a1, &iss, &il, &tu, &nu, &rv, &rl2, &ex, &exl, &a2, &sg, &sgl) == 1) { const uint8_t *sn = NULL, *ee = NULL; size_t snl = 0, eel = 0; time_t d; int j = 0;
+			while (rl2 && j < nent) { if (x509_revoked_cert_from_der(&sn, &snl, &d, &ee, &eel, &rv, &rl2) != 1) { vh_viol("C15:crl-entry-extensions:walk-failed", "\"ext_mask\":%d,\"order\":%d,\"at\":%d", em, order, j); break; } int i = order ? nent - 1 - j : j; int withx = (em >> i) & 1; vh_eval(vh_mix(em * 64 + order * 32 + nent * 4 + j + 7601));
+				if (snl != SER[i].n || memcmp(sn, SER[i].b, snl) || d != rd + i || (withx ? (!ee || !eel) : (ee || eel))) { vh_viol("C15:crl-entry-extensions:walk-reports-another-entrys-fields", "\"ext_mask\":%d,\"order\":%d,\"position\":%d,\"has_extensions\":%d,\"reported_len\":%zu", em, order, j, withx, eel); break; } j++; } } }
+		vh_sample("{\"block\":\"crl-entry-extensions\",\"ext_mask\":%d,\"order\":%d,\"entries\":%d,\"crllen\":%zu}", em, order, nent, cl); }
+}
 /* extension values of every size around the DER length-form boundaries (127/128, 255/256): issued certificate must carry a well-formed
    extension block in which every extension supplied is found again, with its criticality and exactly its value */
 static void blk_ext_sizes(void) {
@@ -198,5 +219,5 @@ static void blk_names(void) {
 		if (ok && c.n) { ok = 0; why = "extra-rdn"; } if (!ok) { snprintf(key, sizeof key, "C15:names:%s", why); vh_viol(key, "\"kinds\":\"%d%d%d%d%d%d\",\"attribute\":%d,\"name\":\"%s\"", kind[0], kind[1], kind[2], kind[3], kind[4], kind[5], at, vh_hex(nm, nl > 120 ? 120 : nl)); continue; }
 		if ((mask % 7) == 0 || vh_thorough) { static uint8_t cert[2048]; uint8_t *p = cert; size_t cl = 0; uint8_t serial[2] = { 2, (uint8_t)mask }; venv_reset(7000 + mask); r = x509_cert_sign_to_der(X509_version_v3, serial, 2, OID_sm2sign_with_sm3, NAME_I, NIL, VENV_NOW - 1000, VENV_NOW + 100000, nm, nl, &CK[0], NULL, 0, NULL, 0, NULL, 0, &CK[1], SM2_DEFAULT_ID, 16, &p, &cl); const uint8_t *sub; size_t subl; if (r != 1 || x509_cert_get_subject(cert, cl, &sub, &subl) != 1 || subl != nl || memcmp(sub, nm, nl)) { vh_viol("C15:names:subject-not-returned-as-supplied", "\"kinds\":\"%d%d%d%d%d%d\",\"ret\":%d", kind[0], kind[1], kind[2], kind[3], kind[4], kind[5], r); } } }
 }
-static void body(void) { blk_certs(); blk_unique_ids(); blk_general_names(); blk_ext_content(); blk_reqs(); blk_crls(); blk_ext_sizes(); blk_names(); }
+static void body(void) { blk_certs(); blk_unique_ids(); blk_general_names(); blk_ext_content(); blk_reqs(); blk_crls(); blk_crl_entry_exts(); blk_ext_sizes(); blk_names(); }
 int main(int argc, char **argv) { vh_init(argc, argv); if (!freopen("/dev/null", "w", stderr)) {} creds_init(); make_name(NAME_I, &NIL, "Issuer"); x509_name_set(NAME_S, &NSL, sizeof NAME_S, "CN", "Beijing", "Haidian", "PKU", "CS", "Subject"); vh_guarded("C15", body, 120); return vh_finish(); }
